@@ -746,11 +746,20 @@ pub fn run_round(cfg: &RoundCfg, seed: u64) -> RoundResult {
         for (_, i) in open {
             gens.push((i, u64::MAX));
         }
+        // Moreover a `clear` that has moved on to the successor table empties new bins that the
+        // transfer has already filled but not yet made current (the old bin is forwarded only
+        // afterwards): lookups keep finding such an entry in the old bin until the forwarding
+        // marker is stored, i.e. possibly AFTER clear has returned. `clear` is not one of the
+        // per-key operations whose linearizability C01 states, so its optional removals are
+        // allowed to take effect until the resize generations it overlapped have been published.
         let mut extra = Vec::new();
-        for e in &res.history {
+        for e in res.history.iter_mut() {
             if let Op::MaybeRemove = e.op {
-                let c = gens.iter().filter(|(i, p)| *i <= e.ret && *p >= e.call).count();
-                for _ in 0..c {
+                let over: Vec<&(u64, u64)> = gens.iter().filter(|(i, p)| *i <= e.ret && *p >= e.call).collect();
+                if let Some(p) = over.iter().map(|g| g.1).max() {
+                    e.ret = e.ret.max(p);
+                }
+                for _ in 0..over.len() {
                     extra.push(*e);
                 }
             }
